@@ -183,7 +183,7 @@ func runGraph(prop string, mix opMix) func(s *Sim) {
 			var pts data.Points
 			for i := 0; i < n; i++ {
 				p := genPointBody(wl, true)
-				p.Type = []string{"value", "description", "a", "b", "ab"}[wl.Draw(5)]
+				p.Type = []string{"value", "description", "a", "b", "ab", ""}[wl.Draw(6)] // "": an untyped point is an identity of its own, not a wildcard
 				p.Key = []string{"", "0", "1", "a"}[wl.Draw(4)]
 				p.Time = nextT()
 				pts = append(pts, p)
@@ -312,8 +312,58 @@ func runGraph(prop string, mix opMix) func(s *Sim) {
 					return client.SendNodePoints(a.Nc, n, append(data.Points(nil), pts...), true)
 				})
 			case 9: // writes that must be refused
-				kind := wl.Draw(5)
+				kind := wl.Draw(6)
 				switch kind {
+				case 5: // a move that must be refused (below one of its own descendants): the request as a whole leaves no trace
+					if !fenceOpen("cycle") {
+						continue
+					}
+					e, ok := pickEdge()
+					if !ok {
+						continue
+					}
+					var below []string
+					for _, m := range g.nodes {
+						if m != e[1] && g.isAbove(e[1], m, map[string]bool{}) {
+							below = append(below, m)
+						}
+					}
+					if len(below) == 0 {
+						continue
+					}
+					np := below[wl.Draw(len(below))]
+					addOp(fmt.Sprintf("REFUSED MoveNode %s from %s under its descendant %s", e[1], e[0], np), func(a *Actor) error {
+						accepted := func() int {
+							tr.Process()
+							n := 0
+							for _, w := range tr.Writes {
+								// the move's own writes: edge points of this node under the old or the new parent (every edge
+								// write of the workload is acknowledged, so none of an earlier operation can still be under way)
+								if w.From == a.Name && w.Refused == "" && w.Edge && w.NodeID == e[1] && (w.Parent == e[0] || w.Parent == np) {
+									n++
+								}
+							}
+							return n
+						}
+						before := accepted()
+						// operations of other writers may not have been handled yet: judge only if, by the writes the store
+						// has accepted so far, the new parent already is a descendant (edges are never removed, so it stays one)
+						mustRefuse := tr.Ref.IsAncestorAny(e[1], np)
+						err := client.MoveNode(a.Nc, e[1], e[0], np, "mv")
+						if !mustRefuse {
+							return err
+						}
+						if errors.Is(err, nats.ErrTimeout) || errors.Is(err, nats.ErrNoResponders) {
+							return err
+						}
+						if err == nil {
+							s.Fail("C05", "refused-not-error", "MoveNode(%s, %s -> %s) puts the node below its own descendant but returned no error", e[1], e[0], np)
+						} else if after := accepted(); after != before {
+							s.Fail("C05", "refused-trace", "MoveNode(%s, %s -> %s) was refused (%v) but %d write(s) it made on the way were accepted: a refused move must leave everything unchanged",
+								e[1], e[0], np, err, after-before)
+						}
+						return nil
+					})
 				case 0: // tombstone aimed at the root
 					t := nextT()
 					v := float64(1 + wl.Draw(2))
